@@ -675,6 +675,7 @@ class NTAGI2C(tt2.Type2Tag):
     def _dump(self, stop):
         s = super(NTAGI2C, self)._dump(stop)
 
+        self.sector_select(stop >> 8)
         data = self.read(stop)[0:4]
         s.append(tt2.pagedump(stop, data, "LOCK2-LOCK4, CHK"))
 
